@@ -200,7 +200,8 @@ type verifC09App struct {
 	Base        uint64
 	Committed   uint64
 	ServerAlloc bool
-	Replay      bool
+	Replay      bool // the proposal is (expected to be) present already: want AlreadyDurable
+	Staged      bool // ... because an earlier item of the same call carries it (coalesced retry)
 }
 
 type verifC09HW struct {
@@ -209,9 +210,18 @@ type verifC09HW struct {
 }
 
 type verifC09Coord struct {
-	FlushUS     int
+	FlushUS     int // < 0: no collection window (a physical batch takes what is queued)
 	Shards      int
 	MaxRequests int
+	MaxRecords  int
+}
+
+func (co *verifC09Coord) config() CommitCoordinatorConfig {
+	cfg := CommitCoordinatorConfig{FlushWindow: time.Duration(co.FlushUS) * time.Microsecond, Shards: co.Shards, MaxRequests: co.MaxRequests, MaxRecords: co.MaxRecords}
+	if co.FlushUS < 0 {
+		cfg.FlushWindow = -1
+	}
+	return cfg
 }
 
 // verifC09Step is one storage mutation call (or reopen / a set of concurrent
@@ -242,7 +252,9 @@ func (s verifC09Step) String() string {
 	case "append":
 		for _, a := range s.Apps {
 			fmt.Fprintf(&b, " [ch%d base=%d n=%d committed=%d", a.Ch, a.Base, len(a.Recs), a.Committed)
-			if a.Replay {
+			if a.Staged {
+				b.WriteString(" retry-in-batch")
+			} else if a.Replay {
 				b.WriteString(" replay")
 			}
 			b.WriteString("]")
@@ -414,6 +426,37 @@ func verifC09Committed(rt *rapid.T, c *verifC09Chan, newLEO uint64) uint64 {
 	return uint64(rapid.IntRange(int(c.HW)+1, int(newLEO)).Draw(rt, "committed"))
 }
 
+// verifC09AddRetries inserts, into some append calls, coalesced retries: a copy
+// of a proposal that an earlier item of the same call carries (the channel
+// worker pool collects queued append tasks of one channel, originals and their
+// retries alike, into one StoreAppendBatch). The copy is identical to the
+// original or carries no committed watermark; it adds nothing to the model.
+func verifC09AddRetries(rt *rapid.T, apps []verifC09App) []verifC09App {
+	if len(apps) == 0 || rapid.IntRange(0, 2).Draw(rt, "retryInBatch") != 0 {
+		return apps
+	}
+	n := rapid.IntRange(1, 2).Draw(rt, "nRetries")
+	for r := 0; r < n; r++ {
+		var orig []int
+		for i, a := range apps {
+			if !a.Replay {
+				orig = append(orig, i)
+			}
+		}
+		i := rapid.SampledFrom(orig).Draw(rt, "retryOf")
+		cp := apps[i]
+		cp.Replay, cp.Staged = true, true
+		if rapid.IntRange(0, 2).Draw(rt, "retryKeepsCommitted") == 0 {
+			cp.Committed = apps[i].Committed
+		} else {
+			cp.Committed = 0
+		}
+		at := rapid.IntRange(i+1, len(apps)).Draw(rt, "retryAt")
+		apps = append(apps[:at], append([]verifC09App{cp}, apps[at:]...)...)
+	}
+	return apps
+}
+
 // genChanStep draws one caller-valid mutation for channel ci and applies it to
 // the model. Preconditions come from the callers in pkg/channel/store and
 // pkg/channel/replication: truncation and replacement never cut below the
@@ -489,6 +532,7 @@ func (w *verifC09World) genChanStep(rt *rapid.T, ci int, allowDiscard bool, forc
 			}
 			st.Apps = append(st.Apps, app)
 		}
+		st.Apps = verifC09AddRetries(rt, st.Apps)
 	case "replay":
 		st.Kind = "append"
 		p := c.Props[rapid.IntRange(0, len(c.Props)-1).Draw(rt, "which")]
@@ -599,6 +643,7 @@ func (w *verifC09World) genStep(rt *rapid.T, reopenPct int) verifC09Step {
 			}
 			st.Apps = append(st.Apps, app)
 		}
+		st.Apps = verifC09AddRetries(rt, st.Apps)
 		return st
 	case k < reopenPct+22:
 		// concurrent calls on distinct channels (group commit across requests)
@@ -622,6 +667,7 @@ type verifC09History struct {
 	Uni    []*verifC09Universe
 	Steps  []verifC09Step
 	States [][]*verifC09Chan
+	world  *verifC09World // the model after the last step (to extend the history)
 }
 
 func verifC09GenHistory(rt *rapid.T, minSteps, maxSteps, reopenPct int) *verifC09History {
@@ -647,6 +693,7 @@ func verifC09GenHistory(rt *rapid.T, minSteps, maxSteps, reopenPct int) *verifC0
 	}
 	h.Chans = w.snapshot()
 	h.Uni = w.Uni
+	h.world = w
 	return h
 }
 
@@ -683,8 +730,8 @@ func verifC09OpenEngine(path string, co *verifC09Coord) (*Engine, error) {
 		_ = eng.Close()
 		return nil, err
 	}
-	if co != nil && co.FlushUS > 0 {
-		eng.ConfigureCommitCoordinator(CommitCoordinatorConfig{FlushWindow: time.Duration(co.FlushUS) * time.Microsecond, Shards: co.Shards, MaxRequests: co.MaxRequests})
+	if co != nil && co.FlushUS != 0 {
+		eng.ConfigureCommitCoordinator(co.config())
 	}
 	return eng, nil
 }
@@ -697,7 +744,34 @@ func verifC09Store(eng *Engine, c *verifC09Chan) (*ChannelStore, error) {
 // fresh lease per call like pkg/channel/store does. It returns a violation
 // text when a caller-valid mutation is refused (or a replay is not recognised).
 func verifC09Exec(eng *Engine, chans []*verifC09Chan, st *verifC09Step) string {
-	ctx := context.Background()
+	return verifC09ExecCtx(context.Background(), eng, chans, st, nil)
+}
+
+// verifC09Report is what one (possibly interrupted) storage call told its
+// caller: which channels it reported a mutation of this step durable for.
+type verifC09Report struct {
+	Claimed  map[int]bool // channel -> a mutation issued by this call was reported durable
+	Refused  int          // items / calls that were not reported durable
+	Verdicts []string
+}
+
+func (r *verifC09Report) add(ci int, durable, fresh bool, text string) {
+	if r.Claimed == nil {
+		r.Claimed = map[int]bool{}
+	}
+	if durable && fresh {
+		r.Claimed[ci] = true
+	}
+	if !durable {
+		r.Refused++
+	}
+	r.Verdicts = append(r.Verdicts, text)
+}
+
+// verifC09ExecCtx is verifC09Exec with a caller context. With rep != nil the
+// call is allowed to fail (an injected fault interrupts it): errors and
+// non-durable verdicts are recorded instead of being violations.
+func verifC09ExecCtx(ctx context.Context, eng *Engine, chans []*verifC09Chan, st *verifC09Step, rep *verifC09Report) string {
 	if st.Kind == "par" {
 		out := make([]string, len(st.Par))
 		var wg sync.WaitGroup
@@ -705,7 +779,7 @@ func verifC09Exec(eng *Engine, chans []*verifC09Chan, st *verifC09Step) string {
 			wg.Add(1)
 			go func(i int) {
 				defer wg.Done()
-				out[i] = verifC09Exec(eng, chans, &st.Par[i])
+				out[i] = verifC09ExecCtx(ctx, eng, chans, &st.Par[i], nil)
 			}(i)
 		}
 		wg.Wait()
@@ -751,6 +825,11 @@ func verifC09Exec(eng *Engine, chans []*verifC09Chan, st *verifC09Step) string {
 			if st.Apps[i].Replay {
 				want = quorumlog.AppendOutcomeAlreadyDurable
 			}
+			if rep != nil {
+				durable := r.Err == nil && (r.Outcome == quorumlog.AppendOutcomeDurable || r.Outcome == quorumlog.AppendOutcomeAlreadyDurable)
+				rep.add(st.Apps[i].Ch, durable, !st.Apps[i].Replay || st.Apps[i].Staged, fmt.Sprintf("item %d (ch%d): outcome %v err %v", i, st.Apps[i].Ch, r.Outcome, r.Err))
+				continue
+			}
 			if r.Err != nil || r.Outcome != want {
 				return fmt.Sprintf("step %s: item %d outcome %v err %v, want outcome %v", st.String(), i, r.Outcome, r.Err, want)
 			}
@@ -769,6 +848,10 @@ func verifC09Exec(eng *Engine, chans []*verifC09Chan, st *verifC09Step) string {
 		default:
 			_, err = s.AppendTrusted(st.Recs)
 		}
+		if rep != nil {
+			rep.add(st.Ch, err == nil, true, fmt.Sprintf("append: err %v", err))
+			break
+		}
 		if err != nil {
 			return fail(err)
 		}
@@ -783,7 +866,14 @@ func verifC09Exec(eng *Engine, chans []*verifC09Chan, st *verifC09Step) string {
 			req.CheckpointHW = &hw
 		}
 		res := StoreApplyFetchTrustedBatch(ctx, []ApplyFetchBatchItem{{Store: s, Request: req}})
-		if len(res) != 1 || res[0].Err != nil {
+		if len(res) != 1 {
+			return fmt.Sprintf("step %s: %d results for one item", st.String(), len(res))
+		}
+		if rep != nil {
+			rep.add(st.Ch, res[0].Err == nil, true, fmt.Sprintf("apply fetch: err %v", res[0].Err))
+			break
+		}
+		if res[0].Err != nil {
 			return fail(res[0].Err)
 		}
 	case "checkpoint":
@@ -795,7 +885,11 @@ func verifC09Exec(eng *Engine, chans []*verifC09Chan, st *verifC09Step) string {
 			}
 			items = append(items, CheckpointHWBatchItem{Store: s, HW: h.HW})
 		}
-		for _, r := range StoreCheckpointHWMonotonicBatch(ctx, items) {
+		for i, r := range StoreCheckpointHWMonotonicBatch(ctx, items) {
+			if rep != nil {
+				rep.add(st.HWs[i].Ch, r.Err == nil, true, fmt.Sprintf("checkpoint ch%d: err %v", st.HWs[i].Ch, r.Err))
+				continue
+			}
 			if r.Err != nil {
 				return fail(r.Err)
 			}
